@@ -129,6 +129,10 @@ def check_conformation(name, conf, viol, counts, classes):
                 # the formal charge of an ion is the one configured for its residue name
                 formal = c["ions"].get(d[5][4].strip())
                 counts["ion_formal_charges_checked"] = counts.get("ion_formal_charges_checked", 0) + 1
+                from ..oracles import chem
+                if formal is not None and formal * chem.ion_sign(d[5][4]) < 0:
+                    viol.append({"cls": "ion-charge-sign-unchemical", "msg": "%s: ion %s (residue %s) is configured with charge %+g" % (
+                        name, d[2], d[5][4], formal)})
                 if formal is not None and formal != pq:
                     viol.append({"cls": "ion-charge-not-configured-value", "msg": "%s: ion %s (residue %s) acts with charge %+g, configured %+g" % (
                         name, d[2], d[5][4], pq, formal)})
